@@ -326,3 +326,63 @@ def nl2(P, C, floor=8):
             C.ob("NL-2", ts.fshort(f), "%s%s%s" % ("" if r[2] == "this" else r[2] + ".", r[0], "[i]" if r[1] else ""), not miss, f.loc(i),
                  "%s%s is set %s" % (r[0], "[i]" if r[1] else "", "after %s exist" % " and ".join(need) if not miss else
                                      "while %s may still be null" % ", ".join(miss)))
+
+
+def nl3(P, C, floor=3):
+    """NL-3: the dimension count is set before the arrays whose release depends on it."""
+    C.rule("NL-3", "in every operation that builds a table (reader, both fits, the stacking constructor and its padding builder) the object's "
+           "ndim is assigned before the first per-dimension array is obtained for it: clear(), which runs on a table abandoned half-built "
+           "(an allocation failure in the middle, the owner's destructor), walks knots[0..ndim) and sizes every deallocation with ndim — "
+           "with ndim still 0 the knot vectors are never returned and the other arrays go back with size 0", floor=floor)
+    n = 0
+    for f in sorted(P.functions.values(), key=lambda g: (g.file, g.line, g.qname)):
+        if f.unit != "driver" or "splinetable" not in f.qname:
+            continue
+        ndim_stores = {}
+        allocs = []
+        for i in f.walk():
+            ap = ts.assign_parts(f, i)
+            if not ap or ap[1] is None or f.nodes[i].get("op", "=") != "=":
+                continue
+            r = ts.root_member(f, ap[0])
+            if not r:
+                continue
+            if r[0] == "ndim" and r[1] == 0:
+                ndim_stores.setdefault(r[2], []).append(i)
+            elif r[0] in PER_DIM and r[1] == 0 and _nonnull_rhs(f, ap[1]):
+                allocs.append((i, r))
+        if not allocs or not ndim_stores:
+            continue
+        pos = f.node_positions()
+        dom = f.dominators()
+
+        def at(x):
+            while x >= 0 and x not in pos:
+                x = f.parent[x]
+            return pos.get(x)
+        for obj, stores in sorted(ndim_stores.items()):
+            mine = [(i, r) for i, r in allocs if r[2] == obj]
+            if not mine:
+                continue
+            # a store of 0 (clearing) does not count as setting the dimension count
+            setting = [s_ for s_ in stores if f.nodes[f.strip(ts.assign_parts(f, s_)[1])].get("cv") != 0]
+            if not setting:
+                continue
+            late = []
+            for i, r in mine:
+                pi = at(i)
+                ok = False
+                for s_ in setting:
+                    ps = at(s_)
+                    if ps and pi and ((ps[0] == pi[0] and ps[1] < pi[1]) or (ps[0] != pi[0] and ps[0] in dom.get(pi[0], ()))):
+                        ok = True
+                if not ok:
+                    late.append((i, r))
+            n += 1
+            C.ob("NL-3", ts.fshort(f) if f.cls else f.name, "ndim-before-arrays:%s" % obj, not late, f.loc(late[0][0]) if late else f.loc(setting[0]),
+                 "%s.ndim is assigned before all %d array allocations for that object" % (obj, len(mine)) if not late else
+                 "%s.%s is obtained at %s while %s.ndim is still unset (assigned at %s): if a later allocation fails, clear() releases nothing of the "
+                 "knot vectors and returns the other arrays with size 0" % (obj, late[0][1][0], f.loc(late[0][0]), obj, f.loc(setting[0])))
+    if n < floor:
+        raise core.AnalysisBroken("NL-3: only %d building operations found (expected the reader, the fits and the padding builder)" % n)
+    return n
